@@ -56,6 +56,9 @@ type c04ConcCase struct {
 }
 
 var c04ExprPool = []string{
+	// collections of dozens and hundreds of items (a result must not depend on how a large collection is laid out or hashed)
+	"'the quick brown fox jumps over the lazy dog THE QUICK BROWN FOX 0123456789'.toChars().distinct()", "('abcdefghijklmnopqrstuvwxyzABCDEFGHIJKLMNOPQRSTUVWXYZ0123456789' & %s).toChars().distinct().first()",
+	"Patient.descendants().distinct().count()", "('aAbBcCdDeEfFgGhHiIjJkKlLmMnNoOpPqQrRsStTuUvVwWxXyYzZ').toChars().intersect('zZyYxXwWvVuUtTsSrRqQpPoOnNmMlLkKjJiIhHgGfFeEdDcCbBaA'.toChars()).take(3)",
 	"Patient.name.where(use = 'official').given", "Patient.name.select(given.first() & ' ' & family)", "Patient.name.exists(family = 'Smith')", "Patient.name.all(given.count() > 0)",
 	"iif(Patient.active, Patient.name.family, {})", "Patient.children().descendants().count()", "Patient.extension('http://example.org/a').value", "Patient.telecom.where(rank > 1).value",
 	"%ints.where($this > 1).count() + %i", "%names.given.distinct()", "%strs.join(',') & %s", "now() > @2000-01-01T00:00:00Z", "today().toString().length()", "Patient.birthDate + 1 year", "Patient.meta.lastUpdated - 2 hours",
